@@ -34,6 +34,7 @@ def run(fx, chk, tier):
     chk.rule("R1", "decoder, encoder and accessor item tables agree, cover the four keys and use the iTunes item codes; the wildcard arm only skips")
     chk.rule("R2", "metadata() = moov.udta.meta(mdir).ilst, empty on every absence path")
     chk.rule("R3", "one `mdir` constant on both sides; the full-box probe reads 8 bytes and rewinds 8")
+    chk.rule("R5", "the meta decoder's second child walk (which locates ilst) restarts at the position captured where its first walk (which locates hdlr) started")
     chk.rule("R4", "year: binary(len 4, big-endian) and text(decimal) branches; poster: borrow of the payload; text: UTF-8 of the payload")
     fr = fx.impl_fn("IlstBox", "ReadBox<&mut R>", "read_box")
     fw = fx.impl_fn("IlstBox", "WriteBox<&mut W>", "write_box")
@@ -191,6 +192,16 @@ def run(fx, chk, tier):
         chk.require(bd.strip("{}") == "item.data.data", "R4", "poster", "&item.data.data", "the poster accessor returns %s instead of the stored payload" % bd, site_of(fb[0]))
         sd = hirq.dump(hirq.body_root(fs[0]))
         chk.require("from_utf8_lossy(item.data.data)" in sd.replace("String::", ""), "R4", "text", "UTF-8 (lossy) of item.data.data", "text accessors decode %s" % sd, site_of(fs[0]))
+    # ---------------- R5: the second child walk of the meta decoder (the one that finds ilst) restarts where the first began
+    import rescan
+    from callgraph import callgraph
+    from packs_common import io_fallible_set
+    fm = fx.impl_fn("MetaBox", "ReadBox<&mut R>", "read_box")
+    if chk.anchor("R5", "MetaBox::read_box", fm):
+        res = rescan.check(fx, fm, io_fallible_set(fx, callgraph(fx)))
+        chk.floor("R5", "rewinds between the child walks of MetaBox::read_box", len(res), 1)
+        for ok, key, how, line in res:
+            chk.require(ok, "R5", "MetaBox|" + key, how, "MetaBox::read_box: " + how, site_of(fm, line))
     return chk.finish(
         "other",
         "Item-code, key and accessor tables are extracted from match arms and compared with each other and with the iTunes codes; the selection path of metadata(), the mdir constant pairing, "
